@@ -43,6 +43,21 @@ T = {
  "C19": ("http", "runtime monitoring: systematic JSON mutation of every data-plane route with panic-hook, digest, limit and confinement oracles",
   "Valid request templates are derived by reflection from the handlers' request types and mutated (missing fields, every other JSON type, null, huge/negative numbers, deep nesting, non-JSON, hostile names); the panic-recovery hook must never fire, responses must be well formed, non-JSON / wrong-typed bodies get 4xx, a 4xx leaves the state digest unchanged, published limits are enforced, and nothing outside the data directory changes (sentinel tree), also after restart.",
   "Requests are sequential (concurrency is C13). Seven recorded known findings (path escape via index names, process-fatal negative ef values, ...) with probes and guards, pending repair patches."),
+ "C03": ("pure", "runtime monitoring with fault enumeration: codec round trips + byte-level damage of real log files followed by engine recovery",
+  "Generated commands (nil / empty / binary arguments biased to CR, LF, NUL, '$', '*', 0xA5) and vectors (all float32 classes; thorough: all 2^32 bit patterns through the hex codec) must round-trip byte for byte; logs of self-identifying commands written with the real writer are damaged (bit flips, 0xA5 injection, overwrites, deletions, insertions, truncation; thorough: every byte x 3 damages and every cut of small logs) and reopened: nothing fabricated or garbled, original order, every untouched frame after the damage applied, Open refuses only without a leading frame marker, allocation bounded.",
+  "The embedded-valid-frame swallow case is excluded as the property states. Allocation bound = documented 1 GB frame cap x candidate frame markers + 64 MB."),
+ "C07": ("vexec", "runtime monitoring: brute-force oracle in the exact regime, calibrated recall floors and structural invariant walker in the large regime",
+  "In the regime where the base layer is fully connected (<= 2M nodes incl. unvacuumed deletions) every k-NN answer after every operation of generated histories (adds, batches, imports, deletes, vacuum, refine, compress, restart) must equal the brute-force top-k distance multiset, for all efSearch; on fixed seed-determined batches of 1000-3000 vectors mean recall@10 and self-retrieval must stay above floors calibrated on this tree (min over 10 seeds and all stages minus 0.10, capped at 0.85) at every maintenance stage; graph invariants (degree bounds, no dangling / self links, live entry point, reachability) are walked after each step.",
+  "Floors are empirical (regression detectors, not a recall guarantee) and currently include the recorded findings D-C07-1..5 (probes + guards) pending repair and recalibration."),
+ "C14": ("vexec", "runtime monitoring with forced schedules (hook gates) + ownership protocol under concurrent admin operations + writer contract",
+  "The complete table of 264 forced schedules {write op} x {SaveSnapshot, RewriteAOF} x {phase boundary} x {write parked between journal and apply | write issued while the admin op is parked} is driven with hook gates; concurrently owned items with increasing sequence numbers are written while snapshots and compactions (also overlapping, also auto-triggered) run; the lazy writer's Flush / Sync / Close / snapshot-mode contract is checked with an atomic acknowledgement counter. After restart every acknowledged write must be present.",
+  "Schedule table enumerated completely (exhaustive over that finite table); free-running parts are exploration. Gates use verifhook points."),
+ "C18": ("pure", "runtime monitoring: float64 reference kernels with derived tolerances, guard-page overread detection, quantizer laws, arena shadow model under the race detector",
+  "Every dispatched distance kernel is compared with a float64 reference over 16 dimensions x 12 magnitude classes with operands placed against a PROT_NONE page (also in a -race/checkptr build); quantizer training percentile, clipping (never wrapping) and round-trip bounds; float16 conversion vs an independent implementation; VGet / scores around VCompress and restart within per-pair derived bounds; the mmap arena is driven directly (alloc / free / reuse / compaction cycles / state save+load / reopen) against a shadow map of content stamps, with concurrent readers under the race detector.",
+  "Pure-Go build on amd64 only. D-C18-1 (latent compactor interleaving defect, unreachable through the product today) is a recorded known finding with a guard."),
+ "C20": ("pure", "runtime monitoring: total/deterministic/bounded oracles over generated strings and chunk graphs",
+  "Hostile strings (invalid UTF-8, mixed scripts, 100 KB words, stemmer-rule vocabularies read from the sources) through analysers, compressor, every splitter strategy x sizes x overlaps and the fixed chunker: no panic, same output twice, no non-whitespace content lost, chunk length <= size+overlap, negations/connectives preserved; adaptive retrieval over a counting stub store on generated chunk graphs (cycles, hubs): token budget, depth limit, node cap and termination checked against a reference BFS.",
+  "Content preservation is rune-exact for valid UTF-8 and byte-exact for invalid input."),
  "C04": ("vexec", "runtime monitoring: reference-model oracle over generated operation histories",
   "Seeded random operation histories (adds, batches, imports, deletes, re-adds, merges, reinforce, evolve, graph ops, KV) interleaved with maintenance/admin ops run against the real engine; every read the property names is compared with a map-of-records reference model, and the model also predicts which calls must be accepted or rejected. Held on the executions observed, not a proof.",
   "Trusts the reference model (harness/vexec/model.go) as the reading of the property; vector equality per precision as fixed in DESIGN.md 2.4."),
